@@ -56,10 +56,7 @@ def handle (cmd : String) (j : J) : Except String J :=
   | "dist" => do
     let c ← parseCalc (← (← j.get "calc").toStr)
     let seqs ← parseSeqs (← j.get "seqs")
-    let repaired := match j.get? "variant" with
-      | some (J.str "repaired") => true
-      | _ => false
-    let st := if repaired then runR c seqs else run c seqs
+    let st := run c seqs
     let d := expand seqs.length st
     let n := seqs.length
     let mat := (List.range n).map fun a => (List.range n).map fun b => cell d a b
